@@ -296,6 +296,10 @@ structure DSt where
   box : Box := ⟨true, true, true⟩
   /-- C01 only: `met` / `dg` observations carry the number of walker invocations (`v=…`, see `Model/MitoWork.lean`) -/
   showWork : Bool := false
+  /-- C02: the `valueKept` fact decides whether the model vouches for a delivered value.  C01's driver leaves it aside —
+      a container that alters a value without executing anything and without raising is C02's matter — and consumes
+      `builds` only. -/
+  valueFacts : Bool := true
 
 def parsePairs {α} (f : String → Option α) (s : String) : List (α × Prim) :=
   (splitComma s).filterMap fun kv =>
@@ -404,7 +408,8 @@ def step (st : DSt) (toks : List String) : DSt × String :=
       let (d, dtag) := detect (st.toolsLower.map (·.2)) (decodeCps raw) (decodeCps low)
       let latched := st.ros >= st.maxRos
       -- what the caller sees: the engine's outcome through the result containers
-      let (tr, out) := metabolizeD st.T (envOf st) st.cfg st.box latched d inp (pathwayOfName forced)
+      let box : Box := if st.valueFacts then st.box else { st.box with valueKept := true }
+      let (tr, out) := metabolizeD st.T (envOf st) st.cfg box latched d inp (pathwayOfName forced)
       let ros' := match out with
         | .result _ _ true _ => st.ros + 0.1
         | _ => st.ros
@@ -463,6 +468,6 @@ def step (st : DSt) (toks : List String) : DSt × String :=
 def main : IO Unit := runDriver ({} : DSt) step
 
 /-- C01's driver: observations carry the walker-invocation count -/
-def mainW : IO Unit := runDriver ({ showWork := true } : DSt) step
+def mainW : IO Unit := runDriver ({ showWork := true, valueFacts := false } : DSt) step
 
 end Operon.Mito
